@@ -230,10 +230,13 @@ reg(Zoo(
                     S('PEntry', kind='entry_pt', zone=0),
                     S('SS3'),
                     S('PExit', kind='exit_pt', exit_evt='e6'),
+                    # a second exit point in the submachine's SECOND region (the enclosing machine has one region only)
+                    S('PExit2', kind='exit_pt', exit_evt='e6'),
                 ],
                 initial=['SS1', 'SS1b'],
                 explicit_creation=['SS2b'],
                 rows=[
+                    R('SS1b', 'e3', 'PExit2'),
                     R('PEntry', 'e4', 'SS3'),
                     R('SS2', 'e6', 'SS1', a=False, g=False),
                     R('SS3', 'e5', 'PExit'),
@@ -251,6 +254,7 @@ reg(Zoo(
             R('St1', 'e4', ('entry', 'Sub', 'PEntry'), a=False, g=False),
             R('Sub', 'e1', 'St1', a=False),
             R(('exit', 'Sub', 'PExit'), 'e6', 'St2'),
+            R(('exit', 'Sub', 'PExit2'), 'e6', 'St1', g=False),
             R('St2', 'e1', 'St1', a=False, g=False),
         ],
     ),
@@ -428,6 +432,23 @@ reg(Zoo(
     ),
 ))
 
+
+# ------------------------------------------------------------------------------------------------
+# flags3: three nesting levels; F1 is carried only by a state of the innermost machine (no direct state of the
+# middle machine carries it), F2 by states of the root and of the middle machine, F3 at the innermost and middle level
+def _flags3():
+    import copy
+    z = copy.deepcopy(ZOO['hier3'])
+    z.name = 'flags3'
+    z.flags = ['F1', 'F2', 'F3']
+    z.menu = []
+    for m in z.machines():
+        for st in m.states:
+            st.flags = {'L2': ['F1', 'F3'], 'N2': ['F2'], 'R1': ['F2'], 'M1': ['F3']}.get(st.name, [])
+    reg(z)
+
+
+_flags3()
 
 # ------------------------------------------------------------------------------------------------
 # sw_<policy>: hier2 (common subset) under each active-state-switch policy, at every level
